@@ -74,7 +74,7 @@ func opKey(op string) (int, bool) {
 		return 0, false
 	}
 	switch f[0] {
-	case "adv", "setmax", "runexec", "mkiter", "useiter":
+	case "adv", "setmax", "runexec", "mkiter", "useiter", "alladv", "keysadv", "coldestadv", "hottestadv":
 		return 0, false
 	}
 	return atoi(f[1]), true
@@ -506,7 +506,43 @@ func (s *seqRunner) apply(op string) OpResult {
 				want = m.liveKeys()
 			}
 			sort.Ints(want)
-			if strings.HasPrefix(op, "useiter") {
+			if f0 := strings.Fields(op)[0]; strings.HasSuffix(f0, "adv") && f0 != "adv" {
+				// the clock advanced after the first element was yielded: the first element was live before the advance,
+				// every later one is live after it (an entry whose deadline passed meanwhile is not iterated over), no key
+				// twice, and every key that is live after the advance (present for the whole iteration) is yielded
+				inList := func(l []int, k int) bool {
+					for _, x := range l {
+						if x == k {
+							return true
+						}
+					}
+					return false
+				}
+				seen := map[int]bool{}
+				for i, g := range res.List {
+					if seen[g] {
+						s.fail("iteration-duplicate", name, "op %q yields key %d twice", op, g)
+					}
+					seen[g] = true
+					if i == 0 {
+						if !inList(ex.listBefore, g) {
+							s.fail("result-mismatch", name, "op %q yields key %d first, which the abstract map did not hold when the iteration began (%v)", op, g, ex.listBefore)
+						}
+					} else if !inList(want, g) {
+						kind := "result-mismatch"
+						if e := m.m[g]; e != nil && e.exp <= m.now {
+							kind = "expired-observed"
+						}
+						s.fail(kind, name, "op %q yields key %d after the clock had advanced to %d inside the loop body; the abstract map holds %v then", op, g, m.now, want)
+					}
+				}
+				for _, w := range want { // the keys live now: entries whose eviction was reported during the operation have left the map
+					if !seen[w] {
+						s.fail("result-mismatch", name, "op %q does not yield key %d which is present during the whole iteration", op, w)
+					}
+				}
+				s.counters["iterations-across-clock-advance"]++
+			} else if strings.HasPrefix(op, "useiter") {
 				// an iterator obtained earlier and ranged now: nothing that is absent or expired now may be yielded, no key
 				// twice, and every entry that was present when it was obtained and still is (same value) must be yielded
 				seen := map[int]bool{}
